@@ -75,8 +75,7 @@ theorem seqStep_unit (ds : DataSource) (hweak : WeakInv ds) (t : Text) (n : Nat)
     (hs : s.sos = L ∨ s.sos = R) (he : s.eos = L ∨ s.eos = R)
     (P : Classes) (hP : P.length = n)
     (hrem : ∀ i ∈ s.indices, keepU ocs i = false → cget P i = BN)
-    (hov : ∀ i ∈ s.indices, keepU ocs i = true → cget P i = cget ocs i ∨ cget P i = L ∨ cget P i = R)
-    (hbrk : ∀ i ∈ s.indices, keepU ocs i = true → (brkAt ds t i).isSome = true → brkClassOK (cget ocs i)) :
+    (hov : ∀ i ∈ s.indices, keepU ocs i = true → cget P i = cget ocs i ∨ cget P i = L ∨ cget P i = R) :
     ∃ out, Expand.Pipeline.seqStep ds t lv ocs (P, none) s = (out, none) ∧ out.length = n ∧
       (∀ j, j ∉ s.indices → cget out j = cget P j) ∧
       (keptOf ocs s).map (cget out) = modelCore ds t lv ocs P s := by
@@ -103,14 +102,10 @@ theorem seqStep_unit (ds : DataSource) (hweak : WeakInv ds) (t : Text) (n : Nat)
       exact hsg
     have := find_start_of_mem t.segs (segs_starts_lt t.segs 0 t.len hwf.tiles).2 x.2 hseg
     simp only [brkAt, Text.charAt, this, Option.bind_some]
-  have hshape : ExplicitShape ds t s ocs P :=
+  have hshape : ExplicitShape t s ocs P :=
     { wf := hwf, unit := h1, bound := hbound, sorted := hok.2, runs := hruns,
       plen := by rw [hP, hu.len], olen := by rw [holen, hu.len], sos := hs, eos := he,
-      rem := hrem, kept := hkept, ov := hov,
-      brk := by
-        intro x hx hk hb
-        obtain ⟨hm, hbe⟩ := hchar x hx
-        exact hbrk _ hm hk (by rw [hbe]; exact hb) }
+      rem := hrem, kept := hkept, ov := hov }
   obtain ⟨hK, hW, hN⟩ := hweak t s ocs P hshape
   -- the weak stage
   have hcl : resolveWeak (fun i => (t.charAt i).map (·.len)) s P = resolveWeak (fun _ => some 1) s P :=
@@ -134,10 +129,8 @@ theorem seqStep_unit (ds : DataSource) (hweak : WeakInv ds) (t : Text) (n : Nat)
   simp only [] at q1
   rw [z1, z2] at q1
   -- the neutral stage
-  have hB : ∀ x ∈ seqChars t s, keepU ocs x.2.start = true → (ds.brk x.2.cp).isSome = true →
-      cget ocs x.2.start ≠ NSM := fun x hx hk hb => (hshape.brk x hx hk hb).1
   obtain ⟨out, o1, o2, o3, o4⟩ := stageN_bn_brkAt ds t hwf h1 s r0 rest hr0 hok.2 hbound hs lv ocs
-    (resolveWeak (fun _ => some 1) s P) (by rw [q3, hP, hu.len]) hK hB hW hN
+    (resolveWeak (fun _ => some 1) s P) (by rw [q3, hP, hu.len]) hK hW hN
   refine ⟨out, ?_, by rw [o2, q3, hP], ?_, ?_⟩
   · unfold Expand.Pipeline.seqStep
     simp only [hcl, o1]
